@@ -365,6 +365,53 @@ pub fn edits_of(t: &Table, name: &str, v: &Val, max_perm_full: usize, sampled_pe
     out
 }
 
+/// Shared state of the coverage-guided target.
+pub struct FuzzCtx {
+    pub t: std::sync::Arc<Table>,
+    pub tys: Vec<TypeEntry>,
+    pub idx: Vec<usize>,
+}
+impl FuzzCtx {
+    pub fn new() -> Self {
+        let t = crate::table();
+        let tys = types();
+        let idx = (0..tys.len())
+            .filter(|i| {
+                let mut v = vec![];
+                all_tags(&t, tys[*i].name, &mut v);
+                !v.is_empty()
+            })
+            .collect();
+        FuzzCtx { t, tys, idx }
+    }
+}
+/// libFuzzer input -> (type, value, edit): byte 0 selects the type, bytes 1..3 the edit, the rest the value.
+pub fn case_from_fuzz(ctx: &FuzzCtx, data: &[u8]) -> Option<(usize, Val, Path, Edit)> {
+    if data.len() < 4 {
+        return None;
+    }
+    let ti = ctx.idx[data[0] as usize % ctx.idx.len()];
+    let sel = u16::from_le_bytes([data[1], data[2]]) as usize;
+    let mut rest = &data[3..];
+    let name = ctx.tys[ti].name;
+    let v = crate::gen::value_from_bytes(&ctx.t, name, &mut rest, 0);
+    if !is_canonical(&ctx.t, &ctx.t[name], &v) {
+        return None;
+    }
+    let edits = edits_of(&ctx.t, name, &v, 5, 24);
+    if edits.is_empty() {
+        return None;
+    }
+    let (path, edit) = edits[sel % edits.len()].clone();
+    Some((ti, v, path, edit))
+}
+pub fn check_fuzz_input(ctx: &FuzzCtx, data: &[u8]) -> CheckResult {
+    match case_from_fuzz(ctx, data) {
+        Some((ti, v, path, edit)) => check_edit(&ctx.t, &ctx.tys[ti], &v, &path, &edit),
+        None => Ok(()),
+    }
+}
+
 pub fn replay(_check: &str, i: &Value) -> Option<CheckResult> {
     let t = crate::table();
     let name = i.get("type")?.as_str()?;
@@ -428,6 +475,25 @@ pub fn run(tier: Tier) -> i32 {
         });
     });
     stats.merge(s);
+    if tier == Tier::Thorough {
+        let fz = FuzzCtx::new();
+        let seeds: Vec<Vec<u8>> = (0..idx.len() as u8).map(|k| vec![k, 1, 0, 3, 1, 2, 1, 5, 1, 9, 1, 4, 1, 4, 2, 7, 1, 1, 1, 1, 1, 1, 1, 1, 1]).collect();
+        match fuzz_campaign("tag_edit", 300_000, 512, ctx.seed, &seeds) {
+            Err(e) => stats.notes.push(format!("coverage-guided layer skipped (infrastructure): {e}")),
+            Ok((crash, stat)) => {
+                stats.class_n("libfuzzer-runs", 300_000);
+                stats.evaluations += 300_000;
+                stats.notes.push(format!("libFuzzer tag_edit: {stat}"));
+                if let Some(input) = crash {
+                    let r = check_fuzz_input(&fz, &input);
+                    if r.is_ok() {
+                        stats.notes.push(format!("libFuzzer saved an input that does not reproduce deterministically: {}", clip(&hex(&input), 200)));
+                    }
+                    ctx.record(r, &mut stats);
+                }
+            }
+        }
+    }
     ctx.finish(
         stats,
         "shipped types with tagged fields x proptest-generated canonical values x edits of the group list the reference encoder returns per struct level (top level and every nested container, enclosing length prefixes recomputed): every permutation of <= 4 (thorough 6) present tagged groups and sampled ones above; each present non-repeated group duplicated to every position; every non-empty subset of mandatory groups removed; a tag unknown to the whole packet tree inserted at every gap. non-trivial = >= 3 tagged groups present at the edited level, or the level is nested; distinct by (type, value, level, edit)",
